@@ -1210,6 +1210,17 @@ func oracleOnce(o *e2eOutcome, v vfn) {
 			v("C05", "delivered-once", "delivered-twice", fmt.Sprintf("%s was delivered %d times", k, n))
 		}
 	}
+	// ... also when the instance died before it could tell anybody: what the file system
+	// saw arrive under a final name (the same version must not arrive there twice)
+	mc := map[string]int{}
+	for _, m := range o.w.recv.movesIntoFinal() {
+		mc[m.Rel+"|"+m.MD5]++
+	}
+	for k, n := range mc {
+		if n > 1 {
+			v("C05", "delivered-once", "moved-into-final-twice", fmt.Sprintf("%s was moved into the final directory %d times (receiver crashes: %d)", k, n, o.recvCrash))
+		}
+	}
 	lc := map[string]int{}
 	for _, l := range o.logged {
 		lc[l.Name+"|"+l.Hash]++
